@@ -566,7 +566,7 @@ static rc::Gen<Case> gen_long(int tier) {
   return rc::gen::noShrink(rc::gen::exec([tier]() {
     int alg, mode;
     int64_t total;
-    if (tier == 0) {  // quick: one case does everything once
+    if (tier == 0 || *range<int>(0, 5) == 0) {  // quick (and 1/6 of thorough): one case does everything once
       alg = 3;
       mode = *range<int>(5, 8);
       total = ((int64_t)1 << 29) + *range<int>(0, 200);
@@ -673,7 +673,7 @@ int main(int argc, char **argv) {
   subs.push_back({"long",
                   "SHA-1/MD5/SHA-256 over 2^29+k bytes (k in -70..70, up to +-2^21; sometimes 2^30+k) fed from one buffer in chunks of 1 MiB, "
                   "1 MiB+1, 1 MiB-61, 8 MiB, or as ONE update (len >> 29 != 0), so the 32-bit halves of the SHA-1/MD5 bit counters carry; "
-                  "quick: a single case running SHA-1 and MD5 over 2^29+k (k in 0..200) bytes, chunked and as one update, and SHA-256 as one update. Oracle: "
+                  "quick (and 1/6 of the thorough cases): a single case running SHA-1 and MD5 over 2^29+k (k in 0..200) bytes, chunked and as one update, and SHA-256 as one update. Oracle: "
                   "OpenSSL EVP fed the same chunks. Non-trivial: >= 2 updates or a carry",
                   gen_long, run_long});
   return pbt_main(argc, argv, subs);
